@@ -1448,6 +1448,14 @@ class Engine:
         kind, callee = self.prog.resolve_callee(fn)
         results = None
         if kind == 'local':
+            cb = self.prog.bodies.get(callee)
+            if cb is not None and cb.kind == 'closure' and fn is not None and fn.get('path', '').startswith(('std::ops::Fn', 'core::ops::Fn')) \
+                    and len(args) == 2 and isinstance(args[1], StructV) and all(k.isdigit() for k in args[1].fields):
+                # `Fn*::call*(closure, (a, b, ..))`: the closure body takes the tuple's components
+                args = [args[0]] + [args[1].fields[str(i)] for i in range(len(args[1].fields))]
+            elif cb is not None and cb.kind == 'closure' and fn is not None and fn.get('path', '').startswith(('std::ops::Fn', 'core::ops::Fn')) \
+                    and len(args) == 2 and args[1] is UNIT:
+                args = [args[0]]
             for h in self.hooks:
                 h('call', st, fr, bi, callee, args, t)
             if callee.startswith(self.prog.LISTENER_IMPL) or callee.startswith('screen::Screen::'):
